@@ -114,6 +114,14 @@ def norm(e, roles):
         return ("leaf", roles.get(("param", e[2]), "param%d" % e[2]))
     if h == "const" and e[2] is not None:
         return ("const", e[2])
+    if h == "try":
+        # `a.checked_add(b)?` in an Option-returning helper: the exact sum (the None case leaves the helper)
+        inner = _peel(e[1])
+        if inner[0] == "call":
+            m = re.match(r"core::num::<impl \w+>::checked_(add|sub|mul|div)$", inner[1])
+            if m:
+                return _nop({"add": "Add", "sub": "Sub", "mul": "Mul", "div": "Div"}[m.group(1)], inner[2][0], inner[2][1], roles)
+        return ("bad", show(e)[:60])
     if h == "field":
         # Some payload of a checked op / .0 of WithOverflow tuple
         inner = _peel(e[4])
@@ -168,6 +176,9 @@ def c12_x2(F, X, rep, b):
     rep.rule("C12-X2", "returned boolean equals total >= amount + base + floor(amount*ppm/10^6) (operator-tree normal form)")
     fn = F.root_of(b)
     r = strip(X.local(b, 0))
+    # the required amount may be computed by a same-file helper (`fn required_msat(&self, amount) -> Option<u64>`)
+    bfile = b.span.get("f")
+    r = strip(mm.inline_pure(F, X, r, depth=2, keep=lambda n: F.by_cdef.get(n) is None or F.by_cdef[n].span.get("f") != bfile or n.startswith("<")))
     cmps = [a for a in alts(r) if a[0] in ("bin", "un")]
     consts = [a for a in alts(r) if a[0] == "const"]
     other = [a for a in alts(r) if a[0] not in ("bin", "un", "const")]
